@@ -144,7 +144,7 @@ def trainer_case(tname, B, seed):
     def build(bsz):
         conn = cx.mkconn("dense", "delta", 1.0, bsz, False, None, seed)
         conn.updater = conn.defaultupdater()
-        neu = LIF((2, 2), 1.0, rest_v=-60.0, reset_v=-65.0, thresh_v=-58.0, refrac_t=1.0, time_constant=10.0, resistance=1.0, batch_size=bsz)
+        neu = LIF((2, 2), 1.0, rest_v=-60.0, reset_v=-65.0, thresh_v=-58.0, refrac_t=1.0, time_constant=10.0, resistance=12.0, batch_size=bsz)
         layer = Serial(conn, neu)
         if tname == "stdp":
             tr = STDP(0.01, -0.02, 10.0, 15.0, batch_reduction=torch.sum)
@@ -152,24 +152,35 @@ def trainer_case(tname, B, seed):
             tr = TripletSTDP(0.01, 0.002, -0.02, 0.003, 10.0, 20.0, 15.0, 30.0, batch_reduction=torch.sum)
         elif tname == "mstdp":
             tr = MSTDP(0.01, -0.02, 10.0, 15.0, batch_reduction=torch.sum)
+        elif tname == "kernel":
+            # a kernel whose SIGN depends on the spike-time difference: different samples push one synapse in opposite directions,
+            # so splitting into potentiating / depressing parts must happen per sample, before the batch reduction
+            from inferno.learn import KernelSTDP
+
+            hat = lambda diff, a, tc: torch.nan_to_num(a * torch.cos(diff * (3.0 / tc)), nan=0.0)  # noqa: E731
+            hat2 = lambda diff, a, tc: torch.nan_to_num(a * torch.sin(diff * (2.0 / tc)), nan=0.0)  # noqa: E731
+            tr = KernelSTDP(hat, hat2, dict(a=0.05, tc=4.0), dict(a=-0.03, tc=6.0), batch_reduction=torch.sum)
         else:
             tr = MSTDPET(0.01, -0.02, 10.0, 15.0, 20.0, batch_reduction=torch.sum)
         tr.register_cell("c", layer.cell)
         return layer, tr, conn
 
     big, small = build(B), [build(1) for _ in range(B)]
+    fired = 0
     call = (lambda tr: tr(0.7)) if tname in ("mstdp", "mstdpet") else (lambda tr: tr())
     for t, x in enumerate(_sparse_inputs((2, 3), 12, B, seed, 0.7)):
-        big[0](x * 3.0)
+        fired += int(big[0](x).sum())
         call(big[1])
         for b in range(B):
-            small[b][0](x[b:b + 1] * 3.0)
+            small[b][0](x[b:b + 1])
             call(small[b][1])
         pos_b, neg_b = big[2].updater.weight.pos, big[2].updater.weight.neg
         for name, whole, parts in (("pos", pos_b, [s[2].updater.weight.pos for s in small]), ("neg", neg_b, [s[2].updater.weight.neg for s in small])):
             tot = sum(p for p in parts if p is not None) if any(p is not None for p in parts) else None
             if (whole is None) != (tot is None) or (whole is not None and not torch.allclose(whole, tot, atol=1e-5)):
                 return {"what": f"C11/trainer/{name}_not_sum_of_samples", "input": dict(trainer=tname, B=B, seed=seed, step=t), "expected": None if tot is None else tot.flatten()[:6].tolist(), "actual": None if whole is None else whole.flatten()[:6].tolist()}
+    if fired == 0:
+        return {"what": "C11/trainer/vacuous_oracle_post_side_never_fired", "input": dict(trainer=tname, B=B, seed=seed), "expected": "> 0 postsynaptic spikes", "actual": 0}
     return None
 
 
@@ -194,10 +205,10 @@ def sweep(tier="quick", seed=0, unsupported=()):
     for kind, B in itertools.product(["serial", "biclique", "recurrent"], Bs):
         cases += 1
         add(layer_case(kind, B, seed))
-    for tname, B in itertools.product(["stdp", "triplet", "mstdp", "mstdpet"], Bs):
+    for tname, B in itertools.product(["stdp", "triplet", "mstdp", "mstdpet", "kernel"], Bs):
         cases += 1
         add(trainer_case(tname, B, seed))
-    return {"standins": [{"function": "batched run vs per-sample batch-size-1 runs: 8 neuron classes (adaptation frozen), 4 synapses incl. delayed reads, 4 connections x 4 synapses with/without delays, Serial/Biclique/RecurrentSerial; STDP/TripletSTDP/MSTDP/MSTDPET with batch_reduction=sum vs sum of per-sample steps", "domain": f"{cases} cases, 12-30 steps each, sparse per-sample spike sequences", "cases": cases, "proved": False, "label": "bounded"}], "failures": failures}
+    return {"standins": [{"function": "batched run vs per-sample batch-size-1 runs: 8 neuron classes (adaptation frozen), 4 synapses incl. delayed reads, 4 connections x 4 synapses with/without delays, Serial/Biclique/RecurrentSerial; STDP/TripletSTDP/MSTDP/MSTDPET/KernelSTDP (sign-changing kernel) with batch_reduction=sum vs sum of per-sample steps", "domain": f"{cases} cases, 12-30 steps each, sparse per-sample spike sequences", "cases": cases, "proved": False, "label": "bounded"}], "failures": failures}
 
 
 def replay(contract, label, model, note=""):
